@@ -38,7 +38,7 @@ ASSUMPTIONS = [
     "serial pool stand-in everywhere except the explicit real-pool steps, which compare against it",
     "computation_time is excluded from comparisons (wall clock)",
 ]
-BUDGET = {"quick": 80, "thorough": 500}
+BUDGET = {"quick": 110, "thorough": 500}
 STEPS = {"quick": 12, "thorough": 25}
 BOUNDS = {"steps": "<=12 (quick) / <=25 (thorough)", "evaluators": "<=3", "inputs": "<=4"}
 TIMEOUT = {"quick": 1500, "thorough": 6 * 3600}
@@ -138,7 +138,7 @@ def step(draw, nev, nin):
     op = draw(st.sampled_from(["evaluate"] * 5 + ["construct", "construct", "aggregate", "aggregate", "load_shipped", "keys", "save", "real_pool", "pair_twice", "refill", "refill", "set_times"]))
     s = {"op": op, "ev": draw(st.integers(0, nev - 1)), "in": draw(st.integers(0, nin - 1))}
     if op in ("evaluate", "real_pool") and draw(st.booleans()):
-        s["cpus"] = draw(st.sampled_from([1, 2, 2, 3, 5]))  # number of CPUs the process sees
+        s["cpus"] = draw(st.sampled_from([1, 2, 2, 2, 3, 5]))  # number of CPUs the process sees
     if op == "evaluate":
         s.update({"result_all": draw(OPT), "sgt": draw(OPT), "lt": draw(OPT), "vb": draw(OPT)})
     elif op == "pair_twice":
@@ -203,7 +203,7 @@ def history(max_steps):
             a = np.array(x[side])
             a[tuple(draw(st.integers(0, n - 1)) for n in a.shape)] = 7
             x[side] = a.tolist()
-        if it == "SEMANTIC" and draw(st.integers(0, 2)) == 0:
+        if it == "SEMANTIC" and draw(st.booleans()):
             ins[draw(st.integers(0, nin - 1))] = draw(tie_input(labels[0]))
         if nin >= 2 and draw(st.booleans()):  # one input is another one with prediction and reference exchanged
             ins[-1] = {"pred": ins[0]["ref"], "ref": ins[0]["pred"], "layout": ins[-1]["layout"], "dtype": ins[0].get("dtype")}
